@@ -560,6 +560,10 @@ Qed.
 Lemma node_create_breaks : inv 1 [] = true /\ disc 1 [] (node_create 1) = false.
 Proof. split; vm_compute; reflexivity. Qed.
 
+Definition w_open : world := [RegN 1 0; Dyn 1; Stat 1; STag 0 1; Det 1; Tok 1; Det 0; Tok 0].
+Lemma svc_open_swapped_breaks : inv 1 w_open = true /\ mem (Tok 1) w_open = true /\ disc 1 w_open (svc_open_swapped 1 1) = false.
+Proof. repeat split; vm_compute; reflexivity. Qed.
+
 Definition w_svc_last : world := [RegN 1 1; Dyn 1; Stat 1; STag 1 1; Det 1; Tok 1].
 Lemma svc_drop_breaks : inv 1 w_svc_last = true /\ disc 1 w_svc_last (svc_drop 1 1 false true) = false.
 Proof. split; vm_compute; reflexivity. Qed.
